@@ -76,13 +76,13 @@ def run(model, res, tier):
     res.trusted += ['hxsa abstract interpreter', 'hxsa polynomial normal form (exact rational arithmetic)', 'python math function names']
     em, singles = error_singletons(model)
     E = dict((msg, n) for n, msg in singles.items())
-    _unary(model, res, E)
-    _binary(model, res, E)
-    _random(model, res)
-    _pv(model, res, E)
+    H.safely(res, 'R1', 'unary', _unary, model, res, E)
+    H.safely(res, 'R1', 'binary', _binary, model, res, E)
+    H.safely(res, 'R1', 'random', _random, model, res)
+    H.safely(res, 'R1', 'pv', _pv, model, res, E)
     from . import c06
     H.borrow(res, 'R7', 'text-to-number coercion', lambda tmp: c06._to_number(model, tmp, H.date_opaque(model), R='R7'))
-    _atan2(model, res, E)
+    H.safely(res, 'R1', 'atan2', _atan2, model, res, E)
     keys = []
     for n in ALL_UNARY + ['LOG', 'POWER', 'PI', 'ATAN2', 'PV', 'RAND', 'RANDBETWEEN']:
         m, f = model.registered(n)
